@@ -46,6 +46,10 @@ const TOKENS: &[&str] = &[
     "\u{e9}\u{6f22}",
     // distinct content in every row, scrolling one or two rows off
     "1\r\n2\r\n3\r\n4",
+    // a run of printable ASCII (all in the range the drawing charset remaps)
+    "abcdefghij",
+    // a parameter beyond 2^32 (2^32 + 31: red foreground when taken modulo 2^16)
+    "\x1b[4294967327m",
 ];
 
 fn alt_after(tokens: &[usize]) -> bool {
@@ -191,7 +195,7 @@ fn explore(cfg: &Cfg, tokens: &[usize], kf_listed: bool) -> Stat {
 
 /// tokens left out of the quick tier (near-duplicates of others as far as call
 /// boundaries are concerned: more text, more SGR forms, the charset trio, an 8-bit CSI)
-const QUICK_SKIP: &[&str] = &["bc", "\x1b[1;31m", "\x1b[38;5;200m", "q", "\x0e", "\x1b(0", "\u{9b}3C", "\u{e9}\u{6f22}"];
+const QUICK_SKIP: &[&str] = &["bc", "\x1b[1;31m", "\x1b[38;5;200m", "q", "\x0e", "\u{9b}3C", "\u{e9}\u{6f22}"];
 
 fn strings(k: usize, quick: bool) -> Vec<Vec<usize>> {
     let mut out: Vec<Vec<usize>> = vec![];
@@ -383,7 +387,7 @@ pub fn run(ctx: &Ctx) -> Report {
     }
     rep.samples.push(json!({"tokens": TOKENS.iter().map(|t| esc(t)).collect::<Vec<_>>() }));
     rep.samples.push(json!(esc(&strs3[strs3.len() / 2].iter().map(|&t| TOKENS[t]).collect::<String>())));
-    rep.rule = "all token strings of <=k tokens over a 35-token alphabet (27 of them in the quick tier) of complete texts/sequences; for each string ALL 2^(n-1) ways of cutting it into feed_str calls are covered by the cut-DAG (node = position x implementation fingerprint after a call boundary; soundness: the future of a call boundary depends only on the state), plus feed() per char; every final node is compared (visible screen, cursor, dump(), and lines() when unlimited) with the single-call result; non-trivial = distinct final nodes compared; plus every Unicode scalar (quick: < U+3000, U+FE00-FFFF, U+E0000-E01FF, every 251st; thorough: all) placed in 8 contexts (ground, OSC, DCS, SOS, CSI parameters, CSI entry, after ESC, charset designation) and fed whole, cut before / after / around it, one call per character and via feed()".into();
+    rep.rule = "all token strings of <=k tokens over a 37-token alphabet (30 of them in the quick tier) of complete texts/sequences; for each string ALL 2^(n-1) ways of cutting it into feed_str calls are covered by the cut-DAG (node = position x implementation fingerprint after a call boundary; soundness: the future of a call boundary depends only on the state), plus feed() per char; every final node is compared (visible screen, cursor, dump(), and lines() when unlimited) with the single-call result; non-trivial = distinct final nodes compared; plus every Unicode scalar (quick: < U+3000, U+FE00-FFFF, U+E0000-E01FF, every 251st; thorough: all) placed in 8 contexts (ground, OSC, DCS, SOS, CSI parameters, CSI entry, after ESC, charset designation) and fed whole, cut before / after / around it, one call per character and via feed()".into();
     rep.assumptions = vec!["cut-pattern count is the number of paths through the DAG (reported as a float)".into()];
     rep
 }
